@@ -112,6 +112,22 @@ class FakeSocket:
             self.net.send_faults += 1
             raise BrokenPipeError(32, "Broken pipe")
         k = min(len(data), self.net.next_send_size)
+        if self.net.send_window is not None:
+            # a socket whose send buffer takes a limited number of bytes per writable event: a send that was cut short means
+            # the buffer is full -- another send before the next writable event fails with EAGAIN, as on a real non-blocking
+            # socket.  ([domain] the buffer never fills up exactly at the end of a message: the byte after it still fits)
+            if getattr(self, "cut_short_in_this_event", False):
+                self.net.send_faults += 1
+                self.net.eagain += 1
+                raise BlockingIOError(11, "Resource temporarily unavailable")
+            left = getattr(self, "window_left", None)
+            if left is None:
+                left = self.net.send_window
+            k = min(k, max(left, 1))
+            self.window_left = left - k
+            if k < len(data):
+                self.cut_short_in_this_event = True
+                self.net.partial_sends += 1
         chunk = bytes(data[:k])
         if self.peer.owner is None:
             self.peer.received += chunk
@@ -220,6 +236,9 @@ class Net:
         self.current_node = None
         self.next_recv_size = 1024
         self.next_send_size = 1 << 30
+        self.send_window = None     # bytes a socket's send buffer takes per writable event (None: unlimited)
+        self.partial_sends = 0
+        self.eagain = 0
         self.actions = hashlib.blake2b(digest_size=8)
         self.n_actions = 0
         self.io_log = None      # optional list of (dir, node name, bytes)
@@ -322,6 +341,8 @@ class Net:
         if sock not in node.lp.selector.map:
             return False
         self.next_send_size = size or (1 << 30)
+        sock.window_left = self.send_window
+        sock.cut_short_in_this_event = False
         self.note("write", node.name, size)
         key = node.lp.selector.map[sock]
         self._call(node, node.lp.handle_remote_peer_selector_event, key, EVENT_WRITE)
